@@ -38,7 +38,7 @@
    of linearizability ([c02_holds]). *)
 
 From Coq Require Import List String Bool.
-From Gogu Require Import Base Lock Lin Atomic C02_Model.
+From Gogu Require Import Base Lock Lin Atomic CsShape C02_Model.
 From Gogu Require C05_Model C06_Model.
 From GoguGen Require Import Skeletons.
 Import ListNotations.
@@ -94,6 +94,27 @@ Proof.
   split; [eapply single_cs_sound; eauto | eapply check_sound; eauto].
 Qed.
 Print Assumptions C02_every_path_is_one_section.
+
+(* spelled out: every path of such an operation is  external calls ++ acquire ++ (reads, external
+   calls and, under the write lock only, writes) ++ release ++ external calls, or touches neither
+   the mutex nor the guarded state *)
+Theorem C02_every_path_has_section_shape : forall name s p b,
+  In name c02_operations -> lookup name = Some s -> path s p b -> shape p.
+Proof.
+  intros name s p b Hin Hl Hp. destruct (C02_every_path_is_one_section name s p b Hin Hl Hp) as [H1 H2].
+  now apply cs_shape.
+Qed.
+Print Assumptions C02_every_path_has_section_shape.
+
+(* and such a section is a critical-section call in the sense of Atomic.v, whatever the accesses
+   compute, as long as only write accesses modify the guarded state: the reduction theorem (B)
+   applies to every path of every checked operation *)
+Theorem C02_section_is_atomic_call : forall (St L R : Type) (sem : act -> St -> L -> St * L),
+  (forall a, (forall l, a <> AWr l) -> forall s l, fst (sem a s l) = s) ->
+  forall w body l0 ret, forallb (is_body w) body = true ->
+  call_ok St L R (call_of_body St L R sem w body l0 ret).
+Proof. exact call_of_body_ok. Qed.
+Print Assumptions C02_section_is_atomic_call.
 
 Example C02_operations_nonvacuous :
   List.length c02_operations = 42%nat /\ forallb (fun n => match lookup n with Some _ => true | None => false end) c02_operations = true.
